@@ -317,6 +317,8 @@ func checkC06(c *Check) {
 			c.Obl(okSID, "C06.R3", "callback-id-is-cookie", P.Pos(R.Callback.Pos()), "the callback's session id is the one presented in the cookie", "the callback can run under a session id that does not come from the cookie ("+whySID+"): a public value (state) selects the session")
 		}
 	}
+	// the identifiers of a login leave in a response object that no other check can reach
+	responseFreshPerCheck(c, "C06.R3", R)
 	if c.Tier == "thorough" && P.Whole {
 		// follow oauth2.GenerateVerifier into the dependency
 		c.extra["verifier_followed_into_dependency"] = true
